@@ -82,36 +82,25 @@ CLAIM = ("Every generated assignment was executed on the real dask.array and on 
 LEVEL_NOTE = "NumPy is the reference; domain limited to the assignment indices dask documents"
 TECHNIQUE = "runtime monitoring: NumPy differential oracle over all chunkings of small arrays x index/value patterns and generated assignments"
 
-PENDING = {
-    # same root cause as C20 (normalize_slice): fix proposed in findings_proposed/C20.md
-    "setitem:slice[negstep,start<-n]&value=scalar:values": "x[-6::-1] = v on n=4 assigns where NumPy selects nothing",
-    # integer index in front of other indices: positions in setitem_array are array dimensions where positions in
-    # implied_shape are needed.  Fix proposed in findings_proposed/C21.md
-    "setitem:int+negative-step-slice:raises": "x[3, ::-2] = 1 raises IndexError: tuple index out of range (family label)",
-    "setitem:int+negative-step-slice:wrong-result": "x[1, ::-1] = v on a 3-d array reverses the wrong value axis - silent (family label)",
-    "setitem:int+int-array:raises": "x[0, [6, 5, 4]] = [..]: TypeError NoneType + NoneType (also ValueError / IndexError variants; family label)",
-    "setitem:int+int-array:wrong-result": "same mechanism, wrong part of the value assigned - silent (family label)",
-    # 1-d dask boolean index inside a tuple, value of length 1 along that axis: later blocks are not assigned
-    "setitem:dask-bool-array&split-chunks&value=array:values": "x[da_mask, :] = v with v.shape[0] == 1: only the first block with a True is assigned - silent",
-    "setitem:dask-bool-array+int&split-chunks&value=array:values": "same with an integer index",
-    "setitem:Ellipsis+dask-bool-array+int&split-chunks&value=array:values": "same",
-    "setitem:Ellipsis+dask-bool-array&split-chunks&value=array:values": "same",
-    "setitem:dask-bool-array&value=array:ValueError@array/slicing.py:setitem_array": "x[da_mask_1d, :] = row (value with fewer axes than the selection): implied_shape_positions is not shifted by offset",
-    # empty selections
-    "setitem:empty-selection&value=array-with-axis-longer-than-1:ValueError@array/slicing.py:setitem_array": "x[:0, :] = np.ones((0, 7)) (or (7,)) raises; NumPy: no-op",
-    "setitem:empty-selection&value=zero-size-array:ValueError@array/slicing.py:setitem_array": "x[3:8:-1] = np.ones(0): negative implied size in parse_assignment_indices",
-    # where(mask, value, x) path
-    "setitem:whole-array-dask-mask[chunked-differently]:chunks-changed": "x[mask] = 0 with a dask mask chunked differently from x: x.chunks become the unified chunks",
-    "setitem:whole-array-dask-mask&value=1-element-array:ValueError@array/core.py:broadcast_shapes": "x[mask] = np.array([5]) raises (0-d works)",
-    "setitem:whole-array-dask-mask&value=1-element-array:TypeError@base.py:compute": "x[mask] = [5] fails at compute time",
-    "setitem:whole-array-dask-mask&value=1-element-array:values": "x[mask] = da.from_array([5]) assigns only part of the selection - silent",
-    "setitem:whole-array-dask-mask&value=1-element-array:ValueError@array/core.py:blockdims_from_blockshape": "same family",
-    "setitem:whole-array-dask-mask&value=1-element-array:TypeError@array/reshape.py:reshape_rechunk": "same family (zero-length axis)",
-    "setitem:whole-array-dask-mask&zero-size-chunk:wrong-result": "x[mask] = 0 on chunks ((2, 0, 1),): computed shape differs from the array's shape",
-    "setitem:whole-array-dask-mask&zero-size-chunk:raises": "same family: Missing dependency / KeyError when the graph is evaluated",
-    "setitem:whole-array-dask-mask&value=1-element-array:IndexError@array/reshape.py:reshape_rechunk": "same family (zero-length axes)",
-    "setitem:tuple-wrapped-whole-array-dask-mask:IndexError@array/slicing.py:parse_assignment_indices": "x[(mask,)] = 0 raises where x[mask] = 0 works",
-    "setitem:tuple-wrapped-whole-array-dask-mask:values": "same, 1-d case",
+# Every label that was PENDING is repaired by fixes_ready/C21_01..09 (+ C20_01); nothing is recorded as known.
+PENDING = {}
+FIXED = {
+    "C20_01_negative_step_start_below_minus_n": ["setitem:slice[negstep,start<-n]&value=scalar:values"],
+    "C21_01_setitem_int_before_negative_step_slice": ["setitem:int+negative-step-slice:raises", "setitem:int+negative-step-slice:wrong-result"],
+    "C21_02_setitem_int_before_integer_list": ["setitem:int+int-array:raises", "setitem:int+int-array:wrong-result"],
+    "C21_03_setitem_dask_bool_index_value_with_fewer_dims": ["setitem:dask-bool-array&value=array:ValueError@array/slicing.py:setitem_array"],
+    "C21_04_setitem_dask_bool_index_broadcast_value": ["setitem:dask-bool-array&split-chunks&value=array:values",
+                                                       "setitem:dask-bool-array+int&split-chunks&value=array:values",
+                                                       "setitem:Ellipsis+dask-bool-array&split-chunks&value=array:values",
+                                                       "setitem:Ellipsis+dask-bool-array+int&split-chunks&value=array:values"],
+    "C21_05_setitem_dask_mask_keeps_chunks": ["setitem:whole-array-dask-mask[chunked-differently]:chunks-changed",
+                                              "setitem:whole-array-dask-mask&zero-size-chunk:wrong-result",
+                                              "setitem:whole-array-dask-mask&zero-size-chunk:raises"],
+    "C21_06_setitem_dask_mask_one_element_value": ["setitem:whole-array-dask-mask&value=1-element-array:*"],
+    "C21_07_setitem_tuple_wrapped_dask_mask": ["setitem:tuple-wrapped-whole-array-dask-mask:IndexError@array/slicing.py:parse_assignment_indices",
+                                               "setitem:tuple-wrapped-whole-array-dask-mask:values"],
+    "C21_08_setitem_empty_negative_step_slice": ["setitem:empty-selection&value=zero-size-array:ValueError@array/slicing.py:setitem_array"],
+    "C21_09_setitem_empty_selection_conforming_value": ["setitem:empty-selection&value=array-with-axis-longer-than-1:ValueError@array/slicing.py:setitem_array"],
 }
 
 DTYPES = ["int64", "int64", "float64", "float64", "int32", "float32", "complex128", "bool", "datetime64[ns]"]
